@@ -74,6 +74,11 @@ theorem frame_step (h : Heap α) (o x : Nat) (m : Mut α) (hs : Sep h o x) :
     refine vw _ rfl rfl (upd_ne _ _ hd) (fun e he => ?_) (Nat.le_succ _)
     have : e.2 ≠ h.next := Nat.ne_of_lt (ha e he)
     simp [mutate, upd, this]
+  | addOcc k v p =>
+    refine vw _ rfl rfl (upd_ne _ _ hd) (fun e he => ?_) (Nat.le_succ _)
+    have : e.2 ≠ h.next := Nat.ne_of_lt (ha e he)
+    simp [mutate, upd, this]
+  | extendToks vs => exact vw _ rfl (upd_ne _ _ hl) rfl (fun _ _ => rfl) (Nat.le_refl _)
   | delName k => exact vw _ rfl rfl (upd_ne _ _ hd) (fun _ _ => rfl) (Nat.le_refl _)
   | clear => exact vw _ rfl (upd_ne _ _ hl) (upd_ne _ _ hd) (fun _ _ => rfl) (Nat.le_refl _)
 
@@ -171,6 +176,17 @@ example : WF exHeap 5 := ⟨by decide, by decide, by decide, by decide⟩
 example : view (mutateAll (copy exHeap 5).1 (copy exHeap 5).2
       [.setName "x" (.atom "new"), .delTok 0, .append (.atom "z"), .clear]) 5
     = ([.ref 2, .atom "b"], [("g", [.ref 2]), ("x", [.atom "b"])], []) := by decide +kernel
+
+/-- `c = r.copy(); c += other` where `other` binds names the source already has (`x`, `g`): the copy sees the merged
+    values, the source keeps showing its own — because `__setitem__` builds a new occurrence list (`addOcc`) instead
+    of appending to the one the copy shares with its source.  (Seeded change C10-1 replaces exactly that by an in-place
+    append; the sharing table of harness/props/c11.py then differs from this model.) -/
+example :
+    let h := mutateAll (copy exHeap 5).1 (copy exHeap 5).2
+      (iaddMuts 2 [("x", (.atom "new", 0)), ("g", (.atom "new", 0))] [.atom "new"])
+    view h 5 = ([.ref 2, .atom "b"], [("g", [.ref 2]), ("x", [.atom "b"])], []) ∧
+    (view h (copy exHeap 5).2).2.1 = [("g", [.ref 2, .atom "new"]), ("x", [.atom "b", .atom "new"])] := by
+  decide +kernel
 
 /-- **`ParseResults.deepcopy()` leaves named nested groups shared with the original** (the finding
     `deepcopy_named_group_aliased`): after `d = r.deepcopy()` the copy's token 0 is a new group (object 13) but its name
